@@ -67,6 +67,8 @@ AXIOMS = {
                                  z3.Implies(z3.And(0 <= _lo, _lo <= _hi, _hi <= slen(_s), 0 <= _i, _i < _hi - _lo),
                                             sat_(sslice(_s, _lo, _hi), _i) == sat_(_s, _lo + _i)),
                                  [sat_(sslice(_s, _lo, _hi), _i)])),
+    "slice_full": (["sslice"], _fa([_s, _lo, _hi], z3.Implies(z3.And(_lo == 0, _hi == slen(_s)), sslice(_s, _lo, _hi) == _s),
+                                   [sslice(_s, _lo, _hi)])),
     "empty_len": (["sempty"], slen(sempty) == 0),
     "unit": (["sunit"], _fa([_x], z3.And(slen(sunit(_x)) == 1, sat_(sunit(_x), 0) == _x), [sunit(_x)])),
     "rep_len": (["srep"], _fa([_x, _n], z3.Implies(_n >= 0, slen(srep(_x, _n)) == _n), [srep(_x, _n)])),
@@ -227,6 +229,7 @@ def ground_instances(exprs, rounds=4):
                     inst.append(slen(t) == slen(a[0]) + slen(a[1]))
                 elif n == "sslice":
                     inst.append(z3.Implies(z3.And(0 <= a[1], a[1] <= a[2], a[2] <= slen(a[0])), slen(t) == a[2] - a[1]))
+                    inst.append(z3.Implies(z3.And(a[1] == 0, a[2] == slen(a[0])), t == a[0]))
                 elif n == "pack32":
                     inst.append(slen(t) == 4)
                     inst.append(z3.Implies(z3.And(0 <= a[0], a[0] < 2 ** 32), unpack32(t) == a[0]))
